@@ -1,4 +1,4 @@
-CONSTANTS Budget = 0  VBudget = 0  JunkTokens = {"(", "NULL", "'unterminated", ";", "\\u00e9", "99999999999999999999999999999", "--", "$"}  MaxMut = 1  Starts = {"<Stmt>"}  DeepN = {8}  MutMaxLen = 60  MaxLen = 200
+CONSTANTS Budget = 0  VBudget = 0  JunkTokens = {"(", "NULL", "'unterminated", ";", "99999999999999999999999999999", "--", "$"}  MaxMut = 1  Starts = {"<Stmt>"}  DeepN = {8}  MutMaxLen = 60  MaxLen = 200
 SPECIFICATION Spec
 INVARIANT TypeOK Balanced KeywordLed Bounded
 ACTION_CONSTRAINT Emit
